@@ -248,28 +248,32 @@ func checkFanoutCoordinator(c *Ctx, rule string, b *Body, semNames map[string]bo
 			return true
 		}
 		be, ok := ast.Unparen(fs.Cond).(*ast.BinaryExpr)
-		if !ok || be.Op != token.LSS {
+		if !ok {
 			return true
 		}
-		call, ok := ast.Unparen(be.Y).(*ast.CallExpr)
-		if !ok || len(call.Args) != 1 {
-			return true
-		}
-		if id, ok := ast.Unparen(call.Fun).(*ast.Ident); !ok || id.Name != "cap" {
-			return true
-		}
-		if !isSemExpr(b, call.Args[0], semNames) {
-			return true
-		}
-		// loop variable starts at 0 and is incremented by one
-		okInit := false
-		if as, ok := fs.Init.(*ast.AssignStmt); ok && len(as.Rhs) == 1 {
-			if tv, ok := info.Types[as.Rhs[0]]; ok && tv.Value != nil && tv.Value.String() == "0" {
-				okInit = true
+		isCapOfSem := func(e ast.Expr) bool {
+			call, ok := ast.Unparen(e).(*ast.CallExpr)
+			if !ok || len(call.Args) != 1 {
+				return false
 			}
+			if id, ok := ast.Unparen(call.Fun).(*ast.Ident); !ok || id.Name != "cap" {
+				return false
+			}
+			return isSemExpr(b, call.Args[0], semNames)
 		}
+		isZero := func(e ast.Expr) bool {
+			tv, ok := info.Types[e]
+			return ok && tv.Value != nil && tv.Value.String() == "0"
+		}
+		as, okAs := fs.Init.(*ast.AssignStmt)
 		inc, okPost := fs.Post.(*ast.IncDecStmt)
-		if !okInit || !okPost || inc.Tok != token.INC {
+		if !okAs || len(as.Rhs) != 1 || !okPost {
+			return true
+		}
+		// counting up: i := 0; i < cap(sem); i++   — or down: n := cap(sem); n > 0; n--
+		up := be.Op == token.LSS && isCapOfSem(be.Y) && isZero(as.Rhs[0]) && inc.Tok == token.INC
+		down := be.Op == token.GTR && isZero(be.Y) && isCapOfSem(as.Rhs[0]) && inc.Tok == token.DEC
+		if !up && !down {
 			return true
 		}
 		for _, st := range fs.Body.List {
